@@ -4,4 +4,4 @@ cd /verif
 ids=$(jq -r '.checks[].property_id' MANIFEST.json)
 run() { out=$(./check $1 quick 2>&1); rc=$?; echo "$1 rc=$rc $(echo "$out" | tail -1)"; [ $rc -ne 0 ] && echo "$out" | grep -E "VIOLATION|ERROR" | head -5; }
 export -f run
-echo $ids | tr ' ' '\n' | xargs -P 4 -I{} bash -c 'run {}'
+echo $ids | tr ' ' '\n' | xargs -P 3 -I{} bash -c 'run {}'
